@@ -21,7 +21,11 @@ import DashLive.Driver.Util
     `c:<service>:<cookie|none>:<origin>:<wire>`   the submitted text, still percent-encoded (any
                                                    spelling); the model decodes it with `pctDecode`
                                                    → accepted | noCookie | reuse | badSignature
-    `p`                                            prune → pruned
+    `p`                                            server restart (prune_database(all_csrf=True)) → pruned
+    `x`                                            prune_database(all_csrf=False) → prunedExpired
+    `t:<seconds>`                                  the clock reads <seconds> from here on → tick
+    `r`                                            any other request of any user (login, logout, token
+                                                   refresh …) → request
   `mac` is the implementation's MAC on the messages of the `i` operations and the injective,
   never empty `'?' :: message` elsewhere. -/
 namespace DashLive.Driver.Csrf
@@ -95,6 +99,9 @@ inductive Op
   | issue (svc ck o salt sig : Str)
   | check (svc : Str) (ck : Option Str) (o tok : Str)
   | prune
+  | pruneExpired
+  | tick (n : Nat)
+  | request
 
 def parseOp (s : String) : Option Op :=
   match s.splitOn ":" with
@@ -104,6 +111,9 @@ def parseOp (s : String) : Option Op :=
     let cookie ← if ck == "none" then some none else (parseStr ck).map some
     some (.check (← parseStr svc) cookie (← parseStr o) (← parseStr tok))
   | ["p"] => some .prune
+  | ["x"] => some .pruneExpired
+  | ["t", n] => (parseNat n).map .tick
+  | ["r"] => some .request
   | _ => none
 
 def macOf (table : List (Str × Str)) (m : Str) : Str :=
@@ -122,6 +132,9 @@ def runOps (c : Cfg) : St → List Op → List String
     let (st', res) := checkWire c st svc ck o tok
     showResult res :: runOps c st' rest
   | st, .prune :: rest => "pruned" :: runOps c (prune st) rest
+  | st, .pruneExpired :: rest => "prunedExpired" :: runOps c (pruneExpired st) rest
+  | st, .tick n :: rest => "tick" :: runOps c { st with now := n } rest
+  | st, .request :: rest => "request" :: runOps c st rest
 
 def csrfSeq : List String → Option String
   | [strict, ops] => do
